@@ -349,6 +349,10 @@ def roundtrip(open_fn, data_or_path, acc, witness, label, pin):
     try:
         with env.Scratch("c01io") as iotmp:
             src, fh_in = data_or_path, None
+            if isinstance(data_or_path, io.BytesIO) and how != 2:
+                # a stream is a package wherever its cursor stands (just written by a save: at the end; signature peeked: at 4)
+                data_or_path.seek([0, 4, len(data_or_path.getvalue())][sum(label.encode()) // 3 % 3])
+                acc.count("opened_from_a_stream_whose_cursor_is_not_at_0", 1 if data_or_path.tell() else 0)
             if how == 2 and isinstance(data_or_path, io.BytesIO):
                 with open(os.path.join(iotmp, "in.bin"), "wb") as fh:
                     fh.write(data_or_path.getvalue())
@@ -380,7 +384,9 @@ def roundtrip(open_fn, data_or_path, acc, witness, label, pin):
     compare(pin, pout, acc, witness, label)
     # second pass: save(open(out)) == out, member for member
     try:
-        pkg2 = open_fn(io.BytesIO(out1))
+        again = io.BytesIO()
+        again.write(out1)  # as a caller who saved into this stream and opens it again without rewinding
+        pkg2 = open_fn(again)
         buf2 = io.BytesIO()
         pkg2.save(buf2)
     except Exception as e:  # noqa
